@@ -19,6 +19,7 @@ inductive TStep where
   | hexGroups (digits group sep : Nat) (upper : Bool)  -- `fmt.Sprintf("%0<digits>x", rr.F)` cut into groups joined by a separator (EUI48, EUI64, NID, L64)
   | euiTok (groups : Nat)    -- `(*EUI48).parse` / `(*EUI64).parse`: that many pairs of hex digits with a dash between them
   | nodeId                  -- `stringToNodeID`: four groups of four hex digits with colons
+  | salt                    -- the salt of NSEC3PARAM: `saltToString(rr.F)` (`-` when empty, else upper case) / the token, `-` standing for none
   | txtFirst                -- one string field: `sprintTxt([]string{rr.F})` / the first chunk of `endingToTxtSlice` (UINFO)
   | blank                   -- `c.Next()` that skips the blank / `" "`
   | slurp                   -- `slurpRemainder(c)`
